@@ -110,13 +110,28 @@ def run(ctx):
         if "tag-prediction" in fs:
             obs_t = vlib.run_replay(keep, t_send, f"C13-{tag}-tags")
             sets.append((t_send, ref_t, obs_t))
-        for snd, ref, obs in sets:
+        if "tag-prediction" not in fs:
+            # builds without tag prediction still predict boundaries on models that carry tag models: scores and labels must
+            # equal those of the default build (which predicted tags as well)
+            sets.append((t_send, ref_t, vlib.run_replay(keep, t_send, f"C13-{tag}-tagmodels"), "predict-only"))
+        for item in sets:
+            snd, ref, obs = item[0], item[1], item[2]
+            only_predict = len(item) > 3
             for d in snd:
                 x, y = ref[d["id"]], obs[d["id"]]
                 ok = "steps" in x and "steps" in y and x.get("preds") == y.get("preds")
+
+                def view(o):
+                    if "steps" not in o:
+                        return []
+                    st = C14.strip(o["steps"])
+                    if only_predict:
+                        return [{"res": s["res"], "scores": s["proj"].get("scores") if isinstance(s["proj"], dict) else s["proj"],
+                                 "bnd": s["proj"].get("bnd") if isinstance(s["proj"], dict) else None}
+                                for s, op in zip(st, d["ops"]) if op["op"] == "predict"]
+                    return st
                 eid = len(events)
-                events.append({"id": eid, "ev": "pair", "ok": ok, "a": C14.strip(x["steps"]) if "steps" in x else [],
-                               "b": C14.strip(y["steps"]) if "steps" in y else []})
+                events.append({"id": eid, "ev": "pair", "ok": ok, "a": view(x), "b": view(y)})
                 meta[eid] = (tag, d)
                 ctx.evaluations += 1
                 if "steps" in x and any(isinstance(s["proj"], dict) and len(set(s["proj"].get("scores") or [])) > 1 for s in x["steps"]):
